@@ -128,6 +128,8 @@ func VerifC06Query(v *verifrt.T) {
 	var startID message.ID
 	if cont < n {
 		startID = c06entries[cont].key
+		// the id a client continues from is one a page of this very query ended with
+		v.Assume(verifrt.And(c06match(q, ents[cont].ssid), verifrt.And(ents[cont].time >= from, ents[cont].time <= until)))
 	}
 
 	var s *SSD
@@ -174,9 +176,16 @@ func VerifC06Query(v *verifrt.T) {
 			v.Assert(m, "C06.only-matching-live-in-window-same-contract")
 			if cont == n {
 				v.Assert(want, "C06.only-the-most-recent")
+			} else {
+				v.Assert(want, "C06.continuation.only-the-most-recent-after-the-id")
 			}
 		} else if cont == n {
 			v.Assert(verifrt.Not(want), "C06.all-of-the-most-recent")
+		} else {
+			// a continuation page is the next `limit` matching live messages after the id - whether
+			// or not the message the id names is still there (it may have expired since the last
+			// page, and on a peer answering the survey it never was)
+			v.Assert(verifrt.Not(want), "C06.continuation.all-of-the-most-recent-after-the-id")
 		}
 		newer += verifrt.B2U(m)
 	}
